@@ -135,9 +135,9 @@ def check_c13(tier, seed):
     out = Outcome("C13", tier, seed)
     rng = random.Random(seed)
     design_handle(out, [(3, 3, 1)] + ([(3, 4, 1), (2, 3, 2)] if tier == "thorough" else []))
-    wl = [hgens.rw_workload(3, 1024, 0), hgens.rw_workload(4, None, 1), hgens.rw_workload(3, None, 2)]
+    wl = [hgens.rw_workload(3, 1024, 0), hgens.rw_workload(4, None, 1), hgens.rw_workload(3, None, 2), hgens.rw_workload(3, None, 3)]
     if tier == "thorough":
-        wl += [hgens.rw_workload(3, None, 1), hgens.rw_workload(4, 1024, 0), hgens.rw_workload(3, 2560, 1), hgens.rw_workload(4, 1024, 2)]
+        wl += [hgens.rw_workload(3, None, 1), hgens.rw_workload(4, 1024, 0), hgens.rw_workload(3, 2560, 1), hgens.rw_workload(4, 1024, 2), hgens.rw_workload(4, 1024, 3)]
     hs = fault_histories(wl, "w", tier, rng, "rw")
     run_batch(out, "faults", "A", hs, spec="Trace_Handle", driver="hdrive")
     return finish(out, "fault_enumeration",
